@@ -1,6 +1,7 @@
 package pairs
 
 import (
+	"strings"
 	"time"
 
 	sdk "github.com/cosmos/cosmos-sdk/types"
@@ -24,6 +25,8 @@ type Gen struct {
 	finished bool
 	// Cover counts occurrences of event-emitting situations that C16_SameEvents needs (vacuity control).
 	Cover map[string]int
+	// CtlFrom is the index of the first block of the emergency-controls phase (0 = none).
+	CtlFrom int
 }
 
 func NewGen(seed int64) *Gen {
@@ -54,6 +57,12 @@ func (g *Gen) next(dt int64) {
 		panic("generator: BeginBlock panicked: " + br.Err)
 	}
 	g.curBegin = br
+	if g.Cover == nil {
+		g.Cover = map[string]int{}
+	}
+	if dt > 2*86400 {
+		g.Cover["longGaps"]++ // more than two (24h) epoch durations between consecutive blocks
+	}
 	g.W.Blocks = append(g.W.Blocks, Block{Dt: dt})
 	g.Res = append(g.Res, nil)
 	g.cur++
@@ -77,6 +86,19 @@ func (g *Gen) closeBlock() {
 			}
 		}
 	}
+	dust := 0
+	for _, e := range br.events {
+		if e.Type == "user_order_matched" {
+			for _, a := range e.Attributes {
+				if a.Key == "pair_id" && a.Value == "4" {
+					dust++
+				}
+			}
+		}
+	}
+	if dust >= 3 {
+		g.Cover["dustBatches"]++ // a partially filled same-price group of >= 2 sell orders against one buy on the pool-less pair
+	}
 	for _, n := range perPair {
 		if n >= 2 {
 			g.Cover["multiPoolBatches"]++ // a batch in which two pools of one pair were matched
@@ -85,6 +107,12 @@ func (g *Gen) closeBlock() {
 	for _, r := range g.Res[g.cur] {
 		if r.Tag == "liquidity.cancelall.multi" && r.OK {
 			g.Cover["cancelAllMultiPair"]++
+		}
+		if strings.HasPrefix(r.Tag, "faulty.") && !r.OK {
+			g.Cover["multiFaultRejections"]++
+		}
+		if strings.HasPrefix(r.Tag, "guarded.") && !r.OK {
+			g.Cover["guardedRejections"]++
 		}
 		g.Cover["events"] += r.NEv
 	}
